@@ -955,8 +955,10 @@ func findSinkType(params *filterParams, parent ast.Node, kv *ast.KeyValueExpr, e
 				break
 			}
 		default:
-			// Probably a type cast.
-			return typ
+			// A type conversion: its operand is stored as a value of that type.
+			if tv, ok := params.ctx.Types.Types[parent.Fun]; ok && tv.IsType() && isElement(parent.Args, e) {
+				return typ
+			}
 		}
 	}
 
